@@ -97,7 +97,7 @@ def run(chk: Check) -> None:
             try:
                 t = function_term(g)
             except OutsideFragment as e:
-                chk.ob("R06.2", key, False, g.loc(), "outside the fragment: %s" % e)
+                chk.ob("R06.2", key, False, g.loc(), "outside the fragment: %s" % e, undecided=True)
                 continue
             param = g.param_names()[1]
             ok = False
@@ -136,7 +136,7 @@ def _extent(chk: Check, sec, site) -> None:
             sm = Summary(g.node)
             vd = sm.value_dnf()
         except Outside as e:
-            chk.ob("R06.3", key + ":shape", False, g.loc(), "outside the fragment: %s" % e, 1)
+            chk.ob("R06.3", key + ":shape", False, g.loc(), "outside the fragment: %s" % e, 1, undecided=True)
             continue
         values = [k for k in vd if k != "None"]
         if len(values) != 1 or "None" not in vd:
@@ -146,6 +146,17 @@ def _extent(chk: Check, sec, site) -> None:
             continue
         vexpr = sm.value_expr(values[0])
         conjs = vd[values[0]]
+        # whatever its spelling, the extent is read off the index over all intervals
+        uses_index = vexpr is not None and any(
+            (isinstance(x, ast.Attribute) and x.attr == site.attr) or
+            (isinstance(x, ast.Name) and x.id in al and any(
+                isinstance(y, ast.Attribute) and y.attr == site.attr for y in ast.walk(al[x.id])))
+            for x in ast.walk(vexpr))
+        if not uses_index:
+            chk.ob("R06.3", key + ":value", False, g.loc(),
+                   "%s must be read off the interval index (begin() / span() of self.%s.get(), which "
+                   "covers every interval); it returns %s" % (key, site.attr, values[0][:60]), 2)
+            continue
         complete = nonempty = False
         atoms = set()
         shown = []
@@ -157,6 +168,8 @@ def _extent(chk: Check, sec, site) -> None:
                     tb = expr_term(b_, g, {}, al) if b_ is not None else None
                     shown.append("%s %s %s" % (unparse(a_) if a_ is not None else "", op,
                                                unparse(b_) if b_ is not None else ""))
+                    if op == "IsNot" and {repr(ta), repr(tb)} == {repr(tree), repr(("none",))}:
+                        continue        # "the tree is there": get() always returns one
                     atoms.add((repr(ta), op, repr(tb)))
                     if op == "Eq" and {repr(ta), repr(tb)} == {repr(len_tree), repr(len_vals)}:
                         complete = True
@@ -167,7 +180,7 @@ def _extent(chk: Check, sec, site) -> None:
                             (op == "truthy" and ta == len_tree):
                         nonempty = True
         except OutsideFragment as e:
-            chk.ob("R06.3", key + ":shape", False, g.loc(), str(e), 1)
+            chk.ob("R06.3", key + ":shape", False, g.loc(), str(e), 1, undecided=True)
             continue
         guards[pname] = frozenset(atoms)
         chk.ob("R06.3", key + ":guard", complete and nonempty and len(atoms) == 2, g.loc(),
